@@ -234,6 +234,7 @@ asts! {
     };
     FieldLet {
         name: Identifier,
+        range_list: RangeList,
         value: Value,
     };
     Type [
